@@ -393,9 +393,10 @@ class ScoredCollector(Collector):
             if replace:
                 if replacecounter == 0 or self.minscore != minscore:
                     # Only matchers that support quality can say whether they
-                    # are able to beat the current minimum score
+                    # are able to beat the current minimum score (and only if
+                    # the scores aren't changed afterwards by final())
                     replaceq = 0
-                    if minscore and matcher.supports_block_quality():
+                    if minscore and usequality:
                         replaceq = minscore
                     self.matcher = matcher = matcher.replace(replaceq)
                     self.replaced_times += 1
